@@ -24,7 +24,8 @@ func c16Script(allow bool) []Req {
 		// writing enabled: the payload of an accepted upload is received through the transfer copier
 		return []Req{mkReq(opCreateFile, "/w/up.bin"), wrReq(patBytes(4, 0, 1000)), mkReq(opStatFile, "/a.txt"), wrReq([]byte("0123456789"))}
 	}
-	return []Req{mkReq(opStatFile, "/a.txt"), mkReq(opOpenFile, "/f.bin"), wrReq([]byte("0123456789")), mkReq(opOpenDir, "/")}
+	// requests with a path, with a payload, and header-only ones (16 bytes, nothing behind them)
+	return []Req{mkReq(opStatFile, "/a.txt"), mkReq(opOpenFile, "/f.bin"), rdReq(5, 10), wrReq([]byte("0123456789")), mkReq(opOpenDir, "/"), noargReq(opReadDirEntry)}
 }
 
 // c16Run executes one event sequence; returns the index of the event at which the connection was closed (-1 = never)
@@ -250,7 +251,7 @@ func c16DrainRun(t *testing.T, root string, T time.Duration, seq []int, want []b
 func TestC16(t *testing.T) {
 	r := NewReporter(t)
 	defer r.Done()
-	r.Rule("T in {100 ms, 1 s, 10 min} x all event sequences of length <= depth over {advance 0.2T,0.5T,0.8T,1.0T,1.2T; deliver 1 byte; deliver rest of the 16-byte command; deliver half of the rest; deliver rest of request; deliver rest of request together with the next command's 16 bytes} over a cyclic script {Stat, OpenFile, WriteFile+payload (refused), OpenDir} and, with writing enabled, {CreateFile, WriteFile+1000-byte payload, Stat, WriteFile+10 bytes}; sequences are cut at the first close; oracle: close at exactly (instant the server started waiting for the current request)+T iff the request is incomplete then, never earlier or later; completed requests answered; handle ledger empty after the cut; bursts of 2 / 3 / 8 connections queued before the accept loop runs, each with its own deadline; slow-drain family: all sequences over {advance 0.3T/0.55T, issue 40000-byte critical read, take 4096 bytes, take all} through a 4096-byte send buffer with write deadlines modelled, never cut while requests are < T apart; distinct by (T, executed event prefix)")
+	r.Rule("T in {100 ms, 1 s, 10 min} x all event sequences of length <= depth over {advance 0.2T,0.5T,0.8T,1.0T,1.2T; deliver 1 byte; deliver rest of the 16-byte command; deliver half of the rest; deliver rest of request; deliver rest of request together with the next command's 16 bytes} over a cyclic script {Stat, OpenFile, ReadFile (header only), WriteFile+payload (refused), OpenDir, ReadDirEntry (header only)} and, with writing enabled, {CreateFile, WriteFile+1000-byte payload, Stat, WriteFile+10 bytes}; sequences are cut at the first close; oracle: close at exactly (instant the server started waiting for the current request)+T iff the request is incomplete then, never earlier or later; completed requests answered; handle ledger empty after the cut; bursts of 2 / 3 / 8 connections queued before the accept loop runs, each with its own deadline; slow-drain family: all sequences over {advance 0.3T/0.55T, issue 40000-byte critical read, take 4096 bytes, take all} through a 4096-byte send buffer with write deadlines modelled, never cut while requests are < T apart; distinct by (T, executed event prefix)")
 	w := newWorld(t, "srv/root")
 	defer w.Cleanup()
 	w.File("a.txt", 10, 1)
